@@ -10,10 +10,14 @@ import Driver.Classify
 import Driver.Scripts
 import Driver.Archive
 import Driver.Unit
+import Driver.Command
 namespace Driver
 
 def dispatch (line : String) : String :=
   match line.trimAscii.toString.splitOn " " with
+  | "shjoin" :: rest => (handleShJoin rest).getD "bad-op"
+  | "shsplit" :: rest => (handleShSplit rest).getD "bad-op"
+  | "cmd" :: rest => (handleCmd rest).getD "bad-op"
   | "margs" :: rest => (handleMargs rest).getD "bad-op"
   | "unit" :: rest => (handleUnit rest).getD "bad-op"
   | "aval" :: rest => (handleAval rest).getD "bad-op"
